@@ -341,6 +341,36 @@ mutual
       if strBytes n = tag then (fromJ F t j).map (.case i) else caseByTag F rest (i + 1) tag j
 end
 
+/-! ### well-formedness assumed by the round-trip theorem (YardlProofs/JsonRoundTrip.lean) -/
+
+def Fmt.Ok (F : Fmt) : Prop := ∀ p i, F.parse p (F.fmt p i) = some i
+
+def names : Fields → List (List UInt8)
+  | .nil => []
+  | .cons n _ r => strBytes n :: names r
+
+def distinct : List (List UInt8) → Bool
+  | [] => true
+  | x :: r => !r.contains x && distinct r
+
+mutual
+  def WF : Ty → Bool
+    | .prim _ => true
+    | .enum _ fl syms => !fl && distinct (syms.map fun p => strBytes p.1)
+    | .record fs => distinct (names fs) && WFF fs
+    | .optional t => WF t && !isNullable t
+    | .union _ cs => distinct (names cs) && WFF cs && casesOk cs
+    | .vector t _ => WF t
+    | .array t _ => WF t
+    | .map k v => WF k && WF v
+  def WFF : Fields → Bool
+    | .nil => true
+    | .cons _ t r => WF t && WFF r
+  def casesOk : Fields → Bool
+    | .nil => true
+    | .cons _ t r => (kinds t != 0) && casesOk r
+end
+
 end Yardl.Json
 
 namespace Yardl.Json
